@@ -298,7 +298,7 @@ class Gen:
     def attrs(self, kind, shape, binds):
         rng = self.rng
         f = self.force
-        a = {"name": None, "level": None, "level_form": "str", "target": None, "parent": None, "follows": None, "skips": [], "skip_all": False,
+        a = {"name": None, "level": None, "level_form": "str", "target": None, "parent": None, "follows": None, "skips": [],
              "fields": [], "ret": None, "err": None}
         if rng.random() < 0.3:
             a["name"] = rng.randint(0, 5)
@@ -358,9 +358,6 @@ class Gen:
             a["ret"] = {"level": rng.choice([None, None, rng.randint(1, 5)]), "mode": mode}
         if want_err:
             a["err"] = {"level": rng.choice([None, None, rng.randint(1, 5)]), "mode": rng.choice(["default", "debug", "display"])}
-        if f.get("skip_all"):
-            a["skip_all"] = True
-            a["skips"] = []
         return a
 
     def func(self):
@@ -385,7 +382,7 @@ class Gen:
                 "attrs": attrs}
 
 
-def build_corpus(n, seed, n_skip_all=6):
+def build_corpus(n, seed):
     rng = random.Random(seed)
     fns = []
     # systematic: every (kind x ret x err) template several times, then random
@@ -402,8 +399,6 @@ def build_corpus(n, seed, n_skip_all=6):
     for gk in GROUP_KINDS:
         forced.append({"groups": [gk, "val"], "kind": "sync"})
         forced.append({"groups": ["bool", gk], "kind": "async"})
-    for _ in range(n_skip_all):
-        forced.append({"skip_all": True, "recv": None})
     for i in range(n):
         force = forced[i] if i < len(forced) else None
         fns.append(Gen(rng, i, force).func())
@@ -556,8 +551,6 @@ def attr_text(fn, order_rng):
         pre.append("follows_from = hf(&[%s])" % ", ".join(str(k) for k in a["follows"]))
     if a["skips"]:
         pre.append("skip(%s)" % ", ".join(bname(fn, p) for p in a["skips"]))
-    if a["skip_all"]:
-        pre.append("skip_all")
     if a["fields"]:
         pre.append("fields(%s)" % ", ".join(field_text(fn, cf) for cf in a["fields"]))
     if a["ret"]:
@@ -738,9 +731,9 @@ def c_field(cf):
 def c_attrs(a):
     par = "None" if a["parent"] is None else ("(Some PxNone)" if a["parent"][0] == "none" else "(Some (PxHelper %d))" % a["parent"][1])
     fol = "None" if a["follows"] is None else "(Some [%s])" % "; ".join(str(k) for k in a["follows"])
-    return "(mkAttrs %s %s %s %s %s [%s] %s [%s] %s %s)" % (
+    return "(mkAttrs %s %s %s %s %s [%s] [%s] %s %s)" % (
         c_opt(a["name"]), c_opt(a["level"]), c_opt(a["target"]), par, fol, "; ".join(str(p) for p in a["skips"]),
-        "true" if a["skip_all"] else "false", "; ".join(c_field(cf) for cf in a["fields"]), c_ev(a["ret"]), c_ev(a["err"]))
+        "; ".join(c_field(cf) for cf in a["fields"]), c_ev(a["ret"]), c_ev(a["err"]))
 
 
 def c_args(vals):
@@ -771,8 +764,6 @@ def attr_key(fn):
             ks.append(k)
     if a["skips"]:
         ks.append("skip")
-    if a["skip_all"]:
-        ks.append("skip_all")
     for cf in a["fields"]:
         ks.append("field:%s:%s%s" % (cf["kind"], cf["expr"][0], ":override" if cf["name"][0] == "param" else ""))
     for k in ("ret", "err"):
